@@ -42,7 +42,7 @@ func genEngineCase(t *rapid.T) engineCase {
 	n := rapid.IntRange(1, 5).Draw(t, "n-queries")
 	c := engineCase{SDL: sdl}
 	for i := 0; i < n; i++ {
-		c.Queries = append(c.Queries, genQuery(t, names, true))
+		c.Queries = append(c.Queries, genQuery(t, names, m.query, true))
 	}
 	return c
 }
@@ -568,9 +568,9 @@ type queryFeatures struct {
 	varIncludeDeprecated bool
 	anyIncludeDeprecated bool
 	hasVariables         bool
-	defaultOnlyIncDep    bool // includeDeprecated: $v where $v has a default
 	rootTypename         bool
 	rootIntrospection    bool
+	rootFragment         bool
 	rootTypenameFirst    bool // a root __typename precedes a root introspection field
 	deepRef              bool
 	includeDeprecatedArg map[string]bool // "true" "false" "absent-on-filterable"
@@ -628,11 +628,7 @@ func analyseQuery(doc *gast.QueryDocument) queryFeatures {
 					switch a.Value.Kind {
 					case gast.Variable:
 						qf.varIncludeDeprecated = true
-						for _, op := range doc.Operations {
-							if vd := op.VariableDefinitions.ForName(a.Value.Raw); vd != nil && vd.DefaultValue != nil {
-								qf.defaultOnlyIncDep = true
-							}
-						}
+
 					case gast.BooleanValue:
 						qf.includeDeprecatedArg[a.Value.Raw] = true
 					}
@@ -649,11 +645,17 @@ func analyseQuery(doc *gast.QueryDocument) queryFeatures {
 				walk(x.SelectionSet, depth+1, od, depth > 0 && isTypeRefField(x.Name))
 			case *gast.InlineFragment:
 				qf.fragments = true
+				if depth == 0 {
+					qf.rootFragment = true
+				}
 				if x.Directives.ForName("skip") != nil || x.Directives.ForName("include") != nil {
 					qf.conditional = true
 				}
 				walk(x.SelectionSet, depth, ofTypeDepth, underRef)
 			case *gast.FragmentSpread:
+				if depth == 0 {
+					qf.rootFragment = true
+				}
 				if x.Definition != nil {
 					walk(x.Definition.SelectionSet, depth, ofTypeDepth, underRef)
 				}
@@ -674,8 +676,6 @@ func (qf queryFeatures) finding(queryTypeName string) string {
 		return "C17-root-typename-before-introspection-field-with-renamed-query-type"
 	case qf.nestedAlias:
 		return "C17-alias-on-nested-introspection-field"
-	case qf.defaultOnlyIncDep:
-		return "C17-includeDeprecated-variable-default-ignored"
 	case qf.hasVariables && qf.anyIncludeDeprecated:
 		return "C17-includeDeprecated-lost-when-operation-has-variables"
 	case qf.deepRef:
@@ -783,7 +783,7 @@ func evalEngineCase(c engineCase, o *pbt.Rec) (*verdictBuilder, pbt.Verdict) {
 		shapeFinding := qf.finding(l.truth.Query.Name)
 		errFinding := shapeFinding
 		if errFinding == "" && l.shape.clash[l.truth.Query.Name] {
-			errFinding = "C17-type-kind-wrong-when-directive-shares-name" // the query type cannot be resolved by name
+			errFinding = "C17-engine-fails-when-query-type-shares-name-with-directive" // the query type is not found by name
 		}
 		resp, raw, xerr := eng.run(q.Query, q.Vars)
 		if xerr != nil {
@@ -806,6 +806,13 @@ func evalEngineCase(c engineCase, o *pbt.Rec) (*verdictBuilder, pbt.Verdict) {
 			nontrivialQueries++
 		}
 		if full {
+			// harness self-check: the reference's own full answer, read back by the fact extractor,
+			// must give exactly the schema's facts (two independent readings of gqlparser's schema)
+			if ws, ok := plainJSON(want).(map[string]any)["__schema"].(map[string]any); ok {
+				if d := diffFacts(l.shape.truth, dropBuiltins(introspectionFacts(ws))); len(d) > 0 {
+					return nil, pbt.Bad("harness self-check failed (reference introspection and fact extractor disagree, not a finding about the repo): %v\nSDL:\n%s", d[0], c.SDL)
+				}
+			}
 			// the fact set of the engine's full answer, against the schema
 			data, _ := resp["data"].(jobj)
 			sch, _ := data["__schema"].(jobj)
@@ -836,6 +843,9 @@ func labelQuery(qf queryFeatures, queryTypeName string, o *pbt.Rec) {
 	}
 	if qf.conditional {
 		o.Label("query:skip-include")
+	}
+	if qf.rootFragment {
+		o.Label("query:root-fields-inside-fragment")
 	}
 	if qf.mergedDuplicate {
 		o.Label("query:merged-duplicate-field")
